@@ -90,6 +90,7 @@ struct World {
     std::set<int> dead_descs;    // destroyed and not (yet) reissued
     std::set<int> live_descs;
     bool threaded = false;
+    bool announce = false;       // exec mode: print the op about to run, so a death can be attributed even without a callback
 
     bool judging(const char *props) const { return strstr(props, prop.c_str()) != nullptr; }
     void viol(const char *props, const std::string &sig, const std::string &detail);
@@ -105,6 +106,7 @@ void world_begin(World &W, const Json &plan);
 void world_end(World &W);
 ref::InstView inst_view(World &W, const Slot &s);
 extern BFail g_bfail;
+extern bool announce_ops;
 extern World *g_world;
 void set_env(World &W, bool set, const std::string &v);
 
